@@ -19,8 +19,12 @@ pub fn run_history(c: &MultiCase) -> CaseResult {
     let mut max_alive = 0;
     let mut structural = false;
     let mut freed = false;
+    // unlimited target: at least 2 ms per op, so that the bars' own position throttle never bites;
+    // rate-limited target: the generated step (0 = frozen clock, most ordinary draws are skipped)
+    let step = if c.hz.is_some() { c.step_ms } else { c.step_ms.max(2) };
+    let mut skipped_draws = 0;
     for (i, op) in c.ops.iter().enumerate() {
-        clock::advance(Duration::from_millis(c.step_ms.max(2) as u64));
+        clock::advance(Duration::from_millis(step as u64));
         let members_before = it.model.entries.len();
         let out = catch(|| it.step(op)).map_err(|p| Fail::new("panic", format!("op #{i} {op:?} panicked: {p} (ops {:?})", &c.ops[..=i])))??;
         if let Some(Err(e)) = &out.io_result {
@@ -32,6 +36,9 @@ pub fn run_history(c: &MultiCase) -> CaseResult {
         }
         let ctx = format!("op #{i} {op:?} ({}x{} terminal, ops {:?})", it.rows, it.cols, &c.ops[..=i]);
         it.check_frames(&out, &ctx)?;
+        if out.frames.is_empty() && matches!(op, MOp::Tick(_) | MOp::Inc(..) | MOp::SetMessage(..)) && out.note != "inc_throttled" {
+            skipped_draws += 1;
+        }
         max_alive = max_alive.max(it.model.entries.iter().filter(|e| !e.zombie).count());
         match out.note {
             "insert" | "insert_from_back" | "insert_before" | "insert_after" => {
@@ -50,11 +57,13 @@ pub fn run_history(c: &MultiCase) -> CaseResult {
             structural = true;
         }
         v.label_if(it.model.bottom && it.model.max_frame_h > crate::hist::height_of(&it.model.frame(), it.cols), "bottom_alignment_shrink");
+        v.label_if(it.bottom_empty_frame_seen, "bottom_alignment_frame_emptied");
         v.label_if(!it.model.blocks.is_empty(), "static_block");
     }
     it.teardown()?;
     v.nontrivial = max_alive >= 2 && structural;
     v.label_if(max_alive >= 2, "two_bars_alive");
+    v.label_if(c.hz.is_some() && skipped_draws > 0, "draws_skipped_by_the_limiter");
     Ok(v)
 }
 
@@ -81,15 +90,15 @@ pub fn signature(c: &MultiCase) -> Option<&'static str> {
     //  F-C01b seen through a MultiProgress: empty first suspend line while no bar row is on screen.
     let _clk = clock::Armed::new();
     let mut it = Interp::new(c);
+    let step = if c.hz.is_some() { c.step_ms } else { c.step_ms.max(2) };
     for op in &c.ops {
-        clock::advance(Duration::from_millis(c.step_ms.max(2) as u64));
+        clock::advance(Duration::from_millis(step as u64));
         if !matches!(catch(|| it.step(op)), Ok(Ok(_))) {
             break;
         }
     }
     let flags = [
         (bottom || it.model.bottom_loose, "bottom_alignment_shift_rows"),
-        (it.bottom_empty_frame_seen, "bottom_alignment_empty_frame_newline"),
         (it.stale_reap_seen, "remove_then_retain_before_repaint"),
         (it.empty_suspend_line_seen, "ordinary_empty_line_after_text_only_draw"),
     ];
@@ -100,6 +109,24 @@ pub fn signature(c: &MultiCase) -> Option<&'static str> {
     } else {
         Some(crate::runner::intern(names.join("|")))
     }
+}
+
+/// the same histories on a rate-limited target: the 20-frame burst is used up first in half of the cases
+pub fn limited_strategy(tier: Tier) -> BoxedStrategy<MultiCase> {
+    let n = tier.pick(30, 50);
+    (16u8..=40, prop_oneof![Just(1u8), Just(20), Just(255)], prop_oneof![3 => Just(0u32), 1 => Just(1u32), 1 => Just(30u32), 1 => Just(2000u32)], any::<bool>())
+        .prop_flat_map(move |(cols, hz, step_ms, burn)| (Just((cols, hz, step_ms, burn)), proptest::collection::vec(mop_strategy(cols as usize, false), 0..n)))
+        .prop_map(|((cols, hz, step_ms, burn), ops)| {
+            let mut all = vec![];
+            if burn {
+                let leave = BarSpec { two_lines: false, len: Some(5), on_finish: 0, msg: String::new() };
+                all.push(MOp::Add(leave));
+                all.extend(std::iter::repeat(MOp::Tick(0)).take(22));
+            }
+            all.extend(ops);
+            MultiCase { rows: 80, cols, hz: Some(hz), step_ms, ops: all, final_drops: vec![] }
+        })
+        .boxed()
 }
 
 pub fn history_strategy(tier: Tier) -> BoxedStrategy<MultiCase> {
@@ -240,9 +267,20 @@ pub fn property() -> Property {
                 cases: |t| t.pick(3_000, 480_000),
                 run: run_history,
                 signature,
-                essential: &["two_bars_alive", "insert", "insert_from_back", "insert_before", "insert_after", "slot_reuse_after_removal", "head_zombie_reaped", "non_head_zombie", "bar_println", "static_block", "bottom_alignment_shrink"],
+                essential: &["two_bars_alive", "insert", "insert_from_back", "insert_before", "insert_after", "slot_reuse_after_removal", "head_zombie_reaped", "non_head_zombie", "bar_println", "static_block", "bottom_alignment_shrink", "bottom_alignment_frame_emptied"],
                 workers: w,
                 decode: Some(|u| decode_multi(u, 0)),
+            }),
+            Box::new(Gen::<MultiCase> {
+                name: "history_limited",
+                rule: "the same histories on a target with a refresh rate of 1, 20 or 255 Hz under a frozen or slowly advancing virtual clock (in half of the cases the 20-frame burst is used up first), so that most ordinary draws are skipped: whatever is painted must still be log ++ retained blocks ++ each drawn member's rendering cached at its last draw attempt, exactly once, in order - in particular a finished bar that is updated and then dropped must be retained with its latest rendering; non-trivial = a draw was skipped by the limiter and >= 2 bars alive",
+                strategy: limited_strategy,
+                cases: |t| t.pick(1_500, 240_000),
+                run: run_history,
+                signature,
+                essential: &["two_bars_alive", "draws_skipped_by_the_limiter", "static_block", "head_zombie_reaped"],
+                workers: w,
+                decode: None,
             }),
             Box::new(Gen::<ThreadsCase> {
                 name: "threads",
